@@ -20,7 +20,7 @@ def build(case, pattern=None):
         gcheck.junk(s)
     n, edges, form = case["n"], case["edges"], case["form"]
     m = len(edges)
-    g = gcheck.make_graph(n, edges)
+    g = gcheck.make_graph(n, edges, case.get("grown"))
     if form in ("vars", "array1d"):
         e = s.bool_array(m)
         graph.active_edges_acyclic(s, e if form == "array1d" else list(e), g)
@@ -148,6 +148,11 @@ def scale_cases(tier):
         comb = [eidx[frozenset((cell((y, 0)), cell((y + 1, 0))))] for y in range(h - 1)] + [eidx[frozenset((cell((y, x)), cell((y, x + 1))))] for y in range(h) for x in range(w - 1)]
         pats.append(pat(comb))
         out.append({"form": "vars", "n": h * w, "edges": edges, "patterns": pats})
+    for n in ((130, 300) if tier == "quick" else (65, 129, 130, 257, 300, 600)):
+        path = [(i, i + 1) for i in range(n - 1)]
+        out.append({"form": "vars", "n": n, "edges": path, "patterns": [[True] * (n - 1), [i % 3 != 0 for i in range(n - 1)]]})
+        cyc = [(i, (i + 1) % n) for i in range(n)]
+        out.append({"form": "vars", "n": n, "edges": graphref.orient(cyc, 3), "patterns": [[True] * n, [True] * (n - 1) + [False], [i != n // 2 for i in range(n)]]})
     for n in ((12, 16) if tier == "quick" else (12, 16, 24, 30)):
         cyc = [(i, (i + 1) % n) for i in range(n)]
         out.append({"form": "vars", "n": n, "edges": cyc, "patterns": [[True] * n, [True] * (n - 1) + [False], [False] + [True] * (n - 1), [i % 2 == 0 for i in range(n)]]})
@@ -165,6 +170,11 @@ def prepare(tier):
     global _CASES
     base_cases = cases_for(tier)
     used = [dict(c, used=True) for c in base_cases[:: (7 if tier == "quick" else 3)] if _small(c)]
+    # Graph objects with a history: some edges added only after the object has been used by other constraints
+    for c in base_cases[:: (5 if tier == "quick" else 2)]:
+        if "edges" in c and "shape" not in c and 2 <= len(c["edges"]) <= 5 and c.get("n", 9) <= 4:
+            used.append(dict(c, grown=1))
+            used.append(dict(c, grown=len(c["edges"]) - 1))
     _CASES = base_cases + used + scale_cases(tier)
     return _CASES
 
@@ -191,7 +201,7 @@ def main(tier, seed, only=None):
         "exploration",
         "all labelled loop-free multigraphs: %s (multiplicity <= 2, 3 for n=2)%s, in up to 4 edge-list presentations; all 2^m "
         "edge subsets; flags as variables / BoolArray1D / negated variables / constants / x|y (4 decompositions per subset) / "
-        "gokigen-style paired v,~v.  Scale family (not exhaustive): Hamiltonian paths, combs, single chords and cycles on grid graphs up to 4x4/3x6 (thorough 6x6) and cycles C12..C30.  Oracle: union-find acyclicity of the active multigraph (two active parallel edges = cycle)."
+        "gokigen-style paired v,~v.  Scale family (not exhaustive): Hamiltonian paths, combs, single chords and cycles on grid graphs up to 4x4/3x6 (thorough 6x6) and cycles C12..C30, paths and cycles on 130 / 300 (thorough 600) vertices.  Oracle: union-find acyclicity of the active multigraph (two active parallel edges = cycle)."
         % (
             "n<=4 with <=5 edges" if tier == "quick" else "n<=4 with <=6 edges",
             "" if tier == "quick" else ", all simple graphs on 5 vertices with <= 7 edges",
